@@ -234,7 +234,7 @@ class ParseMCNPCell:
         while kw_list:
             elt = kw_list.pop()
             if elt.startswith('imp'):
-                importance = float(kw_list.pop())
+                importance = to_float(kw_list.pop())
                 # a later IMP entry (the BUT part of LIKE n BUT) replaces an
                 # earlier one for the same particle; the cell is kept if it
                 # is important for at least one particle
